@@ -51,10 +51,10 @@ prop('C04', units=['bk', 'agg', 'drv'], level='proof',
      witnesses=['D5', 'D13', 'D15'])
 
 prop('C15', units=['bk', 'ord'], level='proof',
-     technique='Verus: split arm of delta_for_tx + per-affiliate split factors in both window scans (code contracts); lemma_step_scales / lemma_ratio_scale_invariant (a step commutes with restating quantities in another split period)',
-     level_text='Deductive proof (Verus) of the step-level statement for all five row kinds and of the ratio invariance; the whole-history induction (fold commutation) is not mechanised.',
-     level_note=BK_NOTE,
-     not_covered=['whole-history induction over the fold', 'rounded split factors (model E)', 'acceptance of rounded factors'],
+     technique='Verus: split arm of delta_for_tx + per-affiliate split factors in both window scans (code contracts); lemma_step_scales / lemma_ratio_scale_invariant (a step commutes with restating quantities in another split period); theorem_split_block + theorem_scaled_ledgers + theorem_split_neutral (induction over the ledger fold `chain` that is the postcondition of txs_to_delta_list)',
+     level_text='Deductive proof (Verus): the code contracts give every ledger as the fold of the step rules; over that fold, theorem_split_neutral proves for all histories, split positions and ratios k>0 that a ledger and the ledger of the same history with a Split row of ratio k for every holder inserted and all later rows restated report the same gain on every later row and end with equal cost bases (share counts scaled by k). Later sales that are superficial losses are covered at step level only (ratio invariance), not in the whole-history theorem.',
+     level_note=BK_NOTE + ' Hypotheses of the whole-history theorem: both ledgers are accepted, the split block has one row per affiliate holding shares, later sales are plain sales of a holder.',
+     not_covered=['whole-history statement for later sales that are superficial losses (step-level ratio invariance only)', 'rounded split factors (model E)', 'acceptance of rounded factors'],
      witnesses=['D13'])
 
 prop('C16', units=['bk', 'ord', 'drv'], level='proof',
